@@ -1,6 +1,7 @@
 package main
 
 import (
+	"bytes"
 	"context"
 	"encoding/hex"
 	"fmt"
@@ -161,7 +162,7 @@ func memoryProbe(kind string) (delta int64, res string) {
 
 func runC08(ctx *runCtx) {
 	ctx.rep.Rule = "limits L in {0,1,125,4096,default(untouched),-1, 1MiB in thorough} x 1..3 messages sized L-1, L, L+1, 2L, random (any fragmentation, compressed and not, control frames inside), " +
-		"limit changes between messages (finite to finite, unlimited to finite, finite to unlimited), both roles; ground truth: messages <= L delivered in full, the first message > L fails after at most L+1 bytes (a prefix) and a Close 1009 is written; " +
+		"a crafted stored block that swallows the deflate tail (last bytes arrive with io.ErrUnexpectedEOF), limit changes between messages (finite to finite, unlimited to finite, finite to unlimited), both roles; ground truth: messages <= L delivered in full, the first message > L fails after at most L+1 bytes (a prefix) and a Close 1009 is written; " +
 		"plus memory probes through Conn.Read (frames declaring 2^62 / 128 MiB bytes but delivering 1000, under limits 4096, 1 GiB and -1; an 8 MiB -> ~8 KiB compression bomb under a 4096-byte limit) measured with runtime.MemStats, panics observed. distinct = (L, sizes, role, flate)"
 	if replayRead(ctx) {
 		return
@@ -226,6 +227,25 @@ func runC08(ctx *runCtx) {
 			c.Exp = gs.expectPrefix(len(gs.Frames), "both messages within their limits")
 		}
 		cases = append(cases, c)
+	}
+	// a compressed message whose deflate stream is one non-final stored block that also swallows the four tail
+	// bytes the receiver appends: the inflater then returns its last bytes together with io.ErrUnexpectedEOF.
+	// With LEN = L+1 the message has L+1 bytes: one more than the limit, it must not be reported complete.
+	for _, L := range []int64{10, 100, 4096} {
+		for _, client := range []bool{true, false} {
+			for _, bufSz := range []int{int(L) + 50, 7} {
+				n := int(L) + 1 // decompressed size
+				body := bytes.Repeat([]byte("s"), n-4)
+				pay := append([]byte{0x00, byte(n), byte(n >> 8), ^byte(n), ^byte(n >> 8)}, body...)
+				f := RawFrame{Fin: true, Rsv1: true, Op: 2, Masked: !client, Key: [4]byte{1, 2, 3, 4}, Payload: pay}
+				lim := L
+				plain := append(append([]byte(nil), body...), 0x00, 0x00, 0xff, 0xff)
+				c := &ReadCase{Desc: fmt.Sprintf("stored block swallowing the tail: %d bytes under limit %d", n, L), Client: client, Flate: true, Limit: &lim,
+					Term: "eof", Chunks: nil, Bufs: []int{bufSz}, Stream: hex.EncodeToString(f.Encode()), NoModel: true}
+				c.Exp = Expect{Why: c.Desc, Msgs: []ExpMsg{}, Pongs: []string{}, InMsg: true, PartialOf: hx(plain), MaxPartial: int(L) + 1, WantClose: 1009}
+				cases = append(cases, c)
+			}
+		}
 	}
 	runReadCases(ctx, cases, func(c *ReadCase) string { return "limit" })
 	// memory probes
